@@ -951,7 +951,18 @@ class Translator:
             if c.get('kind') == 'FieldDecl': fields.append(c)
         inits = [c for c in n.get('inner', []) if c.get('kind') not in ('CXXRecordDecl', 'CompoundStmt')]
         cap_exprs = [self.expr(c) for c in inits]
-        return E('lambda', 'lambda', op=op.get('mangledName'), captures=cap_exprs, fields=[f.get('name') for f in fields], decl=op)
+        # capture fields are unnamed in the AST; inside the body a captured variable is referred to as $<declared name>
+        def cap_name(c):
+            stack = [c]
+            while stack:
+                y = stack.pop()
+                rd = y.get('referencedDecl')
+                if y.get('kind') == 'DeclRefExpr' and rd and rd.get('name'): return rd['name']
+                stack.extend(reversed(y.get('inner', [])))
+            return None
+        names = [f.get('name') or cap_name(c) for f, c in zip(fields, inits)]
+        if len(names) != len(cap_exprs) or any(nm is None for nm in names): raise Unsupported('lambda capture without a name')
+        return E('lambda', 'lambda', op=op.get('mangledName'), captures=cap_exprs, fields=names, decl=op)
 
     def x_CXXMemberCallExpr_dummy(self, n): pass
 
